@@ -48,8 +48,17 @@ def replay_case(prop, case):
         import importlib
         mod = importlib.import_module("harness." + case["replay_fn"][0])
         return getattr(mod, case["replay_fn"][1])(prop, case)
-    print("unknown replay format")
-    return 2
+    # cases of the systematic (non-generated) parts of a check carry no input of their own: re-run that check
+    import tempfile
+    from . import common, registry
+    print(f"case has no stand-alone replay format: re-running the quick check of {prop} on the current tree")
+    tmp = tempfile.mkdtemp(prefix="verif-replay-")       # (evidence / replay files of this re-run are not kept)
+    common.EVIDENCE_DIR, common.REPLAY_DIR = tmp, tmp
+    try:
+        return registry.CHECKS[prop]("quick")
+    finally:
+        import shutil
+        shutil.rmtree(tmp, True)
 
 
 def _verdict(prop, problems):
